@@ -157,7 +157,7 @@ M = {
  "C01-w6m1": ("PR: above 4096 alternatives Satisfies streams them through an odometer whose buffer is sized from the first alternative of each operand", "> 4096 alternatives and an ANDed operand like (X OR (Y AND Z)) whose later alternative is longer: trailing terms are never checked"),
  "C01-w6m2": ("PR: range index keyed by a family NAME derived from the first id (text before the first digit)", "MPL-2.0-no-copyleft-exception (a one-member family) filed under MPL: matched by / matches MPL-1.x"),
  "C02-w6m1": ("PR: terms interned as integer keys (licOrd*len(exceptions)+excOrd)*2+plus, radix one too small; equality tested before the exception check", "A WITH <last exception of the list> against the id that follows A in GetLicenses() order"),
- "C02-w6m2": ("PR: lower-case operators accepted by upper-casing \\b(and|or|with)\\b in the text before scanning", "reference names with and / or / with as a whole segment (LicenseRef-MIT-or-Apache): case variants match, Extract re-cases"),
+ "C02-w6m2": ("PR: lower-case operators accepted by upper-casing the words and / or / with (regexp word boundaries) in the text before scanning", "reference names with and / or / with as a whole segment (LicenseRef-MIT-or-Apache): case variants match, Extract re-cases"),
  "C03-w6m1": ("PR: retired ids match their replacements via a table split at ' WITH '; replacement[1] read for plain renames", "StandardML-NJ (and 4 more) against its successor WITH an exception: index out of range"),
  "C03-w6m2": ("PR: id index with a 64-byte stack buffer holding the word plus '-or-later'; only len(id) > 64 guarded", "an unknown word of 56-64 bytes directly followed by '+'"),
  "C04-w6m1": ("PR: scanner without regexps, normalizeLicense as one suffix switch; the X+ probe moved inside the deprecated branch", "GFDL-1.x-(no-)invariants+ : valid before, unknown now (every entry point)"),
@@ -167,7 +167,7 @@ M = {
  "C07-w6m1": ("PR: allowed list grouped by family as windows into the sorted slice; a split family is re-joined with append into spare capacity", "two members of a family and a non-member sorting between them: the in-between entry is overwritten"),
  "C07-w6m2": ("PR: exception buckets filled with &entry of a range variable (go 1.21 semantics)", "a licence WITH e covered only through another id WITH e that is not the last entry of the sorted list"),
  "C08-w6m1": ("PR: ids resolved before a following '+' is handled", "GFDL-1.x-(no-)invariants+ becomes unknown while -or-later stays valid"),
- "C08-w6m2": ("PR: allowed list indexed per family, each family cut from the sorted list as one run", "GFDL-1.1 | GFDL-1.1-invariants-only | GFDL-1.1-only: the deprecated spelling lands in the lost run"),
+ "C08-w6m2": ("PR: allowed list indexed per family, each family cut from the sorted list as one run", "GFDL-1.1, GFDL-1.1-invariants-only, GFDL-1.1-only sort in this order: the deprecated spelling lands in the lost run"),
  "C09-w6m1": ("PR: typed id folded once into a scratch key; the '+' look-ahead appends -or-later to the key and does not cut it back", "ecos-2.0+ / apache-2.0-or-later+ in non-canonical case"),
  "C09-w6m2": ("PR: tables built once (sync.OnceValue); getters return shared slices", "a caller lower-cases a getter's result: ExtractLicenses then reports lower case"),
  "C10-w6m1": ("PR: alternatives as uint64 bit sets; the 'table full' guard is > 64 instead of >=", "exactly 65 distinct terms: the 65th is not required (AND) / always satisfied (OR), depending on the order written"),
